@@ -458,11 +458,26 @@ func (e *incrqEngine) Exec(op string) string {
 		run := func(ex *incremental.Executor, sess *ir.Session) (incrqOutcome, bool) {
 			ch := make(chan incrqOutcome, 1)
 			go func() { ch <- incrqCompile(ex, e.op, sess, ws) }()
-			select {
-			case o := <-ch:
-				return o, true
-			case <-time.After(20 * time.Second):
-				return incrqOutcome{}, false
+			// soft deadline (see incr.go): a hang is concluded only when nothing can make progress
+			timer := time.NewTimer(20 * time.Second)
+			defer timer.Stop()
+			hardCap := time.Now().Add(4 * incrHardCap)
+			quiet := 0
+			for {
+				select {
+				case o := <-ch:
+					return o, true
+				case <-timer.C:
+					if incrAllParked() {
+						quiet++
+					} else {
+						quiet = 0
+					}
+					if quiet >= incrQuietSamples || time.Now().After(hardCap) {
+						return incrqOutcome{}, false
+					}
+					timer.Reset(incrSampleEvery)
+				}
 			}
 		}
 		long, ok1 := run(e.ex, e.sess)
